@@ -61,7 +61,10 @@ def dollar_quote_literal(text: str) -> str:
     quote = '$$'
     qq = 0
 
-    while quote in text:
+    # The closing quote must be the first occurrence of the quote
+    # sequence after the opening one: the text must neither contain it
+    # nor end with a prefix of it that the closing quote would complete.
+    while quote in text + quote[:-1]:
         if qq % 16 < 10:
             qq += 10 - qq % 16
 
